@@ -14,8 +14,12 @@ class Hang(BaseException):
     """raised by the interval timer when one load() call does not return (BaseException: load() swallows Exception)"""
 
 
+_armed = [False]
+
+
 def _alarm(*a):
-    raise Hang()
+    if _armed[0]:                  # the timer repeats: an alarm swallowed somewhere is followed by another
+        raise Hang()
 
 EPOCH = 1400000000.0
 BASIS = 1000.0
@@ -110,14 +114,17 @@ def impl_replay(base, look, limit, sched):
         ld = F.loader(base, historical=EPOCH, basis=BASIS, factor=1.0, lookahead=look / 1000.0)
         for now in sched:
             clock[0] = BASIS + now / 1000.0
-            signal.setitimer(signal.ITIMER_REAL, 1.5)
+            _armed[0] = True
+            signal.setitimer(signal.ITIMER_REAL, 1.5, 0.5)
             try:
                 cur, events = ld.load(limit=limit)
             except Hang:
+                _armed[0] = False
                 out.append(('HANG', now)); break
             except Exception as e:
                 out.append(('EXC', type(e).__name__)); break
             finally:
+                _armed[0] = False
                 signal.setitimer(signal.ITIMER_REAL, 0)
             evs = [(int(round((e['timestamp'].value - EPOCH) * 1000)), sorted((int(r), int(v)) for r, v in e['values'].items())) for e in events]
             out.append((ld.state, evs))
@@ -177,8 +184,21 @@ def oracle(files, look, limit, sched, out, vals):
         trail = any(trailing(recs) for recs in oldest_first)
         return ('load() does not return (the same history file is re-opened for ever, its records delivered again and again)',
                 'C18/trailing-non-data-records-loop' if trail else None)
-    delivered = [e for st, evs in out for e in evs]
+    delivered_all = [e for st, evs in out for e in evs]
     final_state = out[-1][0]
+    # several files may begin at the very instant of the file the replay starts in: which of them is "the file at the
+    # start" is ambiguous, so register records of OLDER files carrying that same timestamp may or may not be replayed
+    t_start = oldest_first[k0][0][0]
+    optional = [(ts, sorted(regs)) for recs in oldest_first[:k0] for ts, kind, regs in recs if kind == 0 and ts >= t_start - 1]
+    delivered, used_optional = [], False
+    pool = list(optional)
+    for e in delivered_all:
+        if e in pool and e not in expected:
+            pool.remove(e); used_optional = True
+        else:
+            delivered.append(e)
+    if any(a[0] > b[0] + 1 for a, b in zip(delivered_all, delivered_all[1:])):
+        return 'records delivered out of timestamp order: %r' % (delivered_all[:8],), None
     # histories / settings outside the property's premise are not judged
     mono = all(a[0] <= b[0] for a, b in zip(expected, expected[1:]))
     if not mono:
@@ -223,7 +243,7 @@ def oracle(files, look, limit, sched, out, vals):
             due = sum(1 for e in expected if e[0] <= now + look - 1)
             if seen < due and final_state != 6:
                 return 'only %d of %d due records delivered by clock %d' % (seen, due, now), None
-    if final_state == 5:
+    if final_state == 5 and not used_optional:
         last = {}
         for ts, regs in expected:
             for r, v in regs:
